@@ -30,7 +30,8 @@ for pid in sorted(claims['properties']):
             'design_ref': c.get('design_ref', f'DESIGN.md section 3 ({pid})'),
         },
         'level_note': c['note'],
-        'technique': c.get('technique', 'bounded symbolic execution of the real Python code (CrossHair) with z3 deciding every path; counterexamples replayed on CPython'),
+        'technique': c.get('technique', 'bounded symbolic execution of the real Python code (CrossHair) with z3 deciding every path; counterexamples replayed on CPython')
+                     + ('; plus z3 verification conditions generated from the AST of the real source for wide-range loop kernels (E2), translation-validated and replayed' if c.get('e2') else ''),
     })
 
 manifest = {
